@@ -151,7 +151,8 @@ func connectProxyHandler(reg *registry) func(pc *rig.PeerConn) {
 	}
 }
 
-// upgradeOriginHandler: an origin that switches protocols on every request.
+// upgradeOriginHandler: an origin - or, in the "px-" configurations, an upstream HTTP proxy answering for the
+// origin - that switches protocols on every request.
 func upgradeOriginHandler(reg *registry) func(pc *rig.PeerConn) {
 	return func(pc *rig.PeerConn) {
 		pc.Conn.SetReadDeadline(time.Now().Add(20 * time.Second))
@@ -165,7 +166,15 @@ func upgradeOriginHandler(reg *registry) func(pc *rig.PeerConn) {
 		if len(f) < 3 {
 			return
 		}
-		reg.deliver(caseNameOf(f[1]), &farEnd{conn: pc.Conn, br: pc.BR, reply: []byte(upgradeReply), reqHead: head})
+		target := f[1]
+		if i := strings.Index(target, "://"); i >= 0 {
+			// absolute form: the request reached this peer as the upstream PROXY of the configuration ("px-")
+			target = target[i+3:]
+			if j := strings.IndexByte(target, '/'); j >= 0 {
+				target = target[j:]
+			}
+		}
+		reg.deliver(caseNameOf(target), &farEnd{conn: pc.Conn, br: pc.BR, reply: []byte(upgradeReply), reqHead: head})
 	}
 }
 
